@@ -7,9 +7,11 @@ Independent spec for C14.
    (coordinates as written: 1-based, inclusive), the FASTA definition line and the sequence.
 2. `layout d ℓ` — an independent GFF3 writer: it assembles a list of lines and joins them
    (a different shape from `gff.Build`'s buffer appends), with free layout choices `ℓ`:
-   extra `##` directive lines, `#` comment lines, blank lines before each feature, the `###`
-   mark or not, arbitrary FASTA line widths (each line its own width, zero = a blank line),
-   final newline or not.
+   any number of skip lines (blank, `#` comment, `##` directive, `###`) before every feature,
+   after the last feature and between the lines of the FASTA section, arbitrary FASTA line
+   widths (each line its own width, zero = a blank line), final newline or not; and three
+   further choices on which `gff.Parse` fails (known findings): directives before
+   `##sequence-region`, a `;` at the end of column 9, CR LF line ends.
 3. `denote d` — the in-memory value such a file denotes (0-based half-open coordinates).
 4. `bases seq s e` — "bases s..e of the sequence", 1-based inclusive, by enumeration of positions
    (the coordinate law is stated against this, not against a slice expression).
@@ -43,42 +45,52 @@ structure GffDoc where
   deriving Repr, DecidableEq
 
 structure Layout where
-  directives : List Str := []   -- `##…` lines after the two header lines
-  comments : List Str := []     -- `#…` comment lines after the directives
-  gaps : List Nat := []         -- blank lines before feature i (missing = 0)
-  closeMark : Bool := true      -- write `###` before `##FASTA`
-  widths : List Nat := []       -- widths of the successive FASTA lines; the rest goes on one line
+  between : List (List Str) := []       -- skip lines (blank, `#` comment, `##` directive, `###`) before feature i
+  after : List Str := []                -- skip lines after the last feature, before `##FASTA`
+  fastaBetween : List (List Str) := []  -- skip lines before the i-th line of sequence letters
+  widths : List Nat := []               -- widths of the successive FASTA lines; the rest goes on one line
   finalNewline : Bool := true
+  -- three further choices of a GFF3 writer, on which the real parser fails (known findings; excluded by `plainLayout`):
+  preRegion : List Str := []            -- directive lines between `##gff-version` and `##sequence-region`
+  trailingSemi : Bool := false          -- column 9 ends with `;`
+  crlf : Bool := false                  -- lines end with CR LF
   deriving Repr, DecidableEq
 
 /-! ### the writer -/
 
 def attrText (a : List (Str × Str)) : Str := joinSep ';' (a.map fun kv => kv.1 ++ '=' :: kv.2)
 
-def featText (f : FeatLine) : Str :=
-  joinSep '\t' [f.seqid, f.source, f.type, itoa f.first, itoa f.last, f.score, f.strand, f.phase, attrText f.attrs]
+def featText (semi : Bool) (f : FeatLine) : Str :=
+  joinSep '\t' [f.seqid, f.source, f.type, itoa f.first, itoa f.last, f.score, f.strand, f.phase,
+    attrText f.attrs ++ (if semi then [';'] else [])]
 
 /-- cut `s` into lines of the given widths; what is left goes on a last line -/
 def chunks : List Nat → Str → List Str
   | [], s => [s]
   | w :: ws, s => s.take w :: chunks ws (s.drop w)
 
-def featBlock : List FeatLine → List Nat → List Str
+/-- `items` one per line, `skips[i]` before item i -/
+def interleave : List Str → List (List Str) → List Str
   | [], _ => []
-  | f :: fs, [] => featText f :: featBlock fs []
-  | f :: fs, g :: gs => List.replicate g [] ++ featText f :: featBlock fs gs
+  | x :: xs, [] => x :: interleave xs []
+  | x :: xs, g :: gs => g ++ x :: interleave xs gs
 
 def layoutLines (d : GffDoc) (ℓ : Layout) : List Str :=
-  [ joinSep ' ' [sGffVersion, d.version],
-    joinSep ' ' [sSeqRegion, d.region, itoa d.regionFirst, itoa d.regionLast] ]
-  ++ ℓ.directives ++ ℓ.comments
-  ++ featBlock d.feats ℓ.gaps
-  ++ (if ℓ.closeMark then [sClose] else [])
+  [ joinSep ' ' [sGffVersion, d.version] ] ++ ℓ.preRegion
+  ++ [ joinSep ' ' [sSeqRegion, d.region, itoa d.regionFirst, itoa d.regionLast] ]
+  ++ interleave (d.feats.map (featText ℓ.trailingSemi)) ℓ.between
+  ++ ℓ.after
   ++ [ sFasta, '>' :: d.defline ]
-  ++ chunks ℓ.widths d.seq
+  ++ interleave (chunks ℓ.widths d.seq) ℓ.fastaBetween
+
+def joinLines (eol : Str) : List Str → Str
+  | [] => []
+  | [l] => l
+  | l :: ls => l ++ eol ++ joinLines eol ls
 
 def layout (d : GffDoc) (ℓ : Layout) : Str :=
-  joinSep '\n' (layoutLines d ℓ) ++ (if ℓ.finalNewline then ['\n'] else [])
+  let eol : Str := if ℓ.crlf then ['\r', '\n'] else ['\n']
+  joinLines eol (layoutLines d ℓ) ++ (if ℓ.finalNewline then eol else [])
 
 /-! ### what the file denotes -/
 
@@ -101,9 +113,10 @@ def free (bad : List Char) (s : Str) : Bool := s.all fun c => !bad.contains c
 
 def inInt (v : Int) : Bool := decide (minInt ≤ v ∧ v ≤ maxInt)
 
-/-- a letter that may occur in the sequence: not a newline, and not one of the two characters
-that give a FASTA line another meaning (`>` definition line, `##` directive) -/
-def seqChar (c : Char) : Bool := c != '\n' && c != '>' && c != '#'
+/-- a letter that may occur in the sequence: ASCII (Go slices bytes, the model characters), not a
+newline, and not one of the two characters that give a FASTA line another meaning (`>` definition
+line, `#` comment / directive) -/
+def seqChar (c : Char) : Bool := c != '\n' && c != '>' && c != '#' && decide (c.toNat < 128)
 
 def keysNodup : List (Str × Str) → Bool
   | [] => true
@@ -139,13 +152,19 @@ def wfDoc (d : GffDoc) : Bool :=
   free [' ', '\n'] d.version && free [' ', '\n'] d.region && inInt d.regionFirst && inInt d.regionLast
   && d.feats.all wfFeatLine && free ['\n'] d.defline && d.seq.all seqChar
 
+/-- a line a GFF3 reader skips: blank, or a `#` comment / `##` directive (also `###`) other than the
+`##FASTA` mark; no newline inside -/
+def wfSkip (l : Str) : Bool := l.isEmpty || (hasPrefix sHash1 l && l != sFasta && free ['\n'] l)
+
 /-- directive lines start with `##`, are not the `##FASTA` mark, hold no newline -/
 def wfDirective (l : Str) : Bool := hasPrefix sHash2 l && l != sFasta && free ['\n'] l
 
-/-- comment lines start with `#` but not `##`, hold no newline -/
-def wfComment (l : Str) : Bool := hasPrefix ['#'] l && !hasPrefix sHash2 l && free ['\n'] l
+def wfLayout (ℓ : Layout) : Bool :=
+  ℓ.between.all (·.all wfSkip) && ℓ.after.all wfSkip && ℓ.fastaBetween.all (·.all wfSkip) && ℓ.preRegion.all wfDirective
 
-def wfLayout (ℓ : Layout) : Bool := ℓ.directives.all wfDirective && ℓ.comments.all wfComment
+/-- the layouts `parse_layout_partial` covers: `##sequence-region` on the second line, no `;` at the end
+of column 9, LF line ends -/
+def plainLayout (ℓ : Layout) : Bool := ℓ.preRegion.isEmpty && !ℓ.trailingSemi && !ℓ.crlf
 
 /-! ### the corresponding record for a `gff.Build` round trip -/
 
